@@ -23,7 +23,8 @@ LIMITS = ["histories of at most 40 offers; the unbounded 'never' is claimed only
 ASSUMPTIONS = ["reference root rule (vf/refs/models.py), reference signer"]
 
 CLASSES = ["honest", "honest", "honest", "honest_junk", "replay_current", "rollback", "skip", "revoked", "self_appointed",
-           "insufficient_old", "insufficient_new", "type_confused", "malformed", "corrupted_sigs", "wrong_payload_sigs"]
+           "insufficient_old", "insufficient_new", "type_confused", "malformed", "corrupted_sigs", "wrong_payload_sigs",
+           "replayed_signatures", "replayed_signatures"]
 
 
 def plan(tier, seed):
@@ -110,6 +111,14 @@ def gen_offer(cls, trusted, accepted_log, rng):
         good["signed"]["delegations"]["root"]["pubkeys"] = [k.hex for k in att] + good["signed"]["delegations"]["root"]["pubkeys"]
         good["signed"]["delegations"]["root"]["threshold"] = 1
         return good, True
+    if cls == "replayed_signatures":
+        # forged successor of the CURRENT trusted root that re-uses, verbatim, the signature entries the
+        # library verified when it accepted that root (same keys, same thresholds, attacker-chosen content)
+        forged = copy.deepcopy(trusted)
+        forged["signed"]["version"] = v + 1
+        att = outsiders[:1] or [gkeys.key(24)]
+        forged["signed"]["delegations"]["key_mgr"] = {"pubkeys": [k.hex for k in att], "threshold": 1}
+        return forged, True
     raise ValueError(cls)
 
 
